@@ -585,7 +585,15 @@ def do_replay(pid, path, workdir):
         return 1
     cases, rc = replay_lines(data["input"], os.path.join(workdir, "replay"))
     bad = False
+    known_sigs = {k["signature"] for k in load_known() if k.get("property") == pid and k.get("status") == "known"}
     for c in cases:
+        # a recorded history need not be replayable to its end on another tree (an event it contains may no longer be
+        # enabled — e.g. the worker step of a put that is now refused on the spot): compare the replayable prefix only
+        for i, s_ in enumerate(c.steps):
+            if s_.out.startswith("disabled"):
+                print(f"   (the recorded event `{s_.ev}` is not enabled on this tree: the history is replayed up to here)")
+                del c.steps[i:]
+                break
         d = c.first_divergence()
         for s in c.steps:
             mark = "!=" if s.impl != s.model else "  "
@@ -597,6 +605,9 @@ def do_replay(pid, path, workdir):
         mon = monitors.MONITORS.get(pid)
         if mon:
             for f in mon(c):
+                if f["signature"] in known_sigs:
+                    print(f"KNOWN-FINDING: property={pid} {f['signature']}: {f['what']}")
+                    continue
                 print(f"MONITOR {f['signature']} at step {f['step']}: {f['what']}")
                 if data.get("signature") in (None, f["signature"]):
                     bad = True
